@@ -113,4 +113,17 @@ TEXT = {
                 "package scope, df()/graph linking) is outside the verifier's subset and is NOT claimed; _extract_fn_ref_args (recursive walk) is an assumed summary.",
         "technique": "contract-based deductive verification: own VC generator over the real source + z3/cvc5",
     },
+    "C12": {
+        "level": "FunctionReference.parse_qualified_name is proved, with its regular expression read from the real source and translated mechanically into an SMT encoding of backtracking "
+                 "(greedy / lazy priority) matching, to split BUILD(cluster, module, function, version) back into exactly its four parts for every module / function without ':' or '#', every single-line "
+                 "version string (including ':' , '::' and '#'), and every cluster without '::' that does not contain both ':' and '#' -- an unbounded statement over strings (cvc5, case split on the optional "
+                 "groups). FunctionReference.__init__ is proved to build exactly that name (cluster prefix present whenever a cluster is given, also when the version contains '::'), to raise nothing, and to "
+                 "take the parameter names it is given (an empty list included). from_qualified_name is proved never to raise on a well-formed stored name whichever of {module missing, attribute missing, "
+                 "not a memento function, version mismatch} happens, in the default as in a named cluster, and to fall back to an external reference carrying exactly the stored name; "
+                 "UnboundExternalMementoFunction.__init__ is proved for clusters None and named.",
+        "note": "Partial: DataSourceMetadataSource.get_mementos/list_functions and the memory backend listing are not under contract; _find_function's exception set is assumed (importlib / getattr). "
+                "Known finding (format-inherent): a cluster that itself reads as 'module:function#...' is indistinguishable from a cluster-less name whose version contains '::'. Clusters containing both ':' and '#' "
+                "in other shapes are unambiguous but outside the proved domain. Three genuine defects found by these contracts were repaired in /repo (see known_findings.json).",
+        "technique": "contract-based deductive verification: own VC generator over the real source (incl. mechanical regex->SMT translation) + z3/cvc5",
+    },
 }
